@@ -172,6 +172,39 @@ func oracleC13(l *harness.Live) (c struct {
 		name string
 		e    xast.Expr
 	}{"(P)[true()]", &xast.Filter{Primary: &xast.Group{X: p}, Preds: []xast.Expr{&xast.Call{Name: "true"}}}})
+	// Two more spellings of the same set that take the builder off its short cuts (the '//'
+	// collapse, the descendant-over-descendant walk, the merge rewrite are not applied
+	// under a predicate or across a self step): [true()] appended to EVERY step, and a
+	// self::node() step inserted after one of the steps.
+	// (Not for the engine-against-engine cases: what a positional predicate behind another
+	// predicate selects is claimed by nothing, and C13 names only the four wrappers above;
+	// for paths the reference pins, these spellings are paths of the same denotation.)
+	if len(p.Steps) > 0 && !selfOnly {
+		all := *p
+		all.Steps = nil
+		for _, sx := range p.Steps {
+			if st, ok := sx.(*xast.Step); ok {
+				s2 := *st
+				s2.Preds = append(append([]xast.Expr{}, st.Preds...), &xast.Call{Name: "true"})
+				all.Steps = append(all.Steps, &s2)
+			} else {
+				all.Steps = append(all.Steps, sx)
+			}
+		}
+		wraps = append(wraps, struct {
+			name string
+			e    xast.Expr
+		}{"P with [true()] on every step", &all})
+		k := int(harness.Hash64(l.Expr) % uint64(len(p.Steps)))
+		if _, ok := p.Steps[k].(*xast.Step); ok {
+			ins := *p
+			ins.Steps = append(append(append([]interface{}{}, p.Steps[:k+1]...), &xast.Step{Axis: "self", Test: xast.NodeTest{Kind: "node"}}), p.Steps[k+1:]...)
+			wraps = append(wraps, struct {
+				name string
+				e    xast.Expr
+			}{fmt.Sprintf("P with self::node() after step %d", k+1), &ins})
+		}
+	}
 	for _, w := range wraps {
 		got, f := sel(w.e, l.Ctx)
 		if f != nil {
